@@ -307,12 +307,14 @@ def newDescFromBundle (b : Bundle) (n : Node) : Desc × Node :=
   let d := { newDesc n b.key with bndl := some b }
   (d, sync d n)
 
+def Node.setIdk (n : Node) (x : List ((Eid × Nat) × Nat)) : Node := { n with idk := x }
+
 /-- `IdKeeper.update`: first bundle of a (source, time) pair gets 0, the next ones 1, 2, … -/
 def idkUpdate (b : Bundle) (n : Node) : Bundle × Node :=
   let s := match lookupNat n.idk (b.src, b.ts) with
     | some v => v + 1
     | none => 0
-  ({ b with seq := s }, { n with idk := setNat n.idk (b.src, b.ts) s })
+  ({ b with seq := s }, n.setIdk (setNat n.idk (b.src, b.ts) s))
 
 /-! ## Routing algorithms -/
 
